@@ -39,6 +39,12 @@ Theorem C10_char_printer_cases : forall c : cp,
 Proof. exact write_escaped_char_cases. Qed.
 Print Assumptions C10_char_printer_cases.
 
+(* the hexadecimal spelling used by #\x.. and \x..; inverts, for every value below 2^32 *)
+Theorem C10_show_hex_inverse : forall n, n < 4294967296 ->
+  parse_hex_u32 (show_hex n) 0 = Some n /\ forallb is_hex (show_hex n) = true /\ show_hex n <> [].
+Proof. exact show_hex_inverse. Qed.
+Print Assumptions C10_show_hex_inverse.
+
 (* ------------------------------------------------------------------- strings *)
 (* (b) for every text s of scalar values: the inner text of the written string decodes
    to s; the written form is ONE String token whatever follows; it reads back *)
